@@ -67,11 +67,50 @@ def parse_output(text):
             cur.append(d)
     return res, hang
 
-def _run_proc(cmd, path):
+def _limit():
+    import resource
+    resource.setrlimit(resource.RLIMIT_AS, (3 << 30, 3 << 30))
+
+def _run_proc(cmd, path, limit=False):
+    if limit:
+        # address-space cap so that a runaway loop that allocates dies quickly (no preexec_fn: threads)
+        cmd = ['bash', '-c', 'ulimit -v 4194304; exec "$@"', 'sh'] + cmd
     return subprocess.Popen(cmd + [path], stdout=subprocess.PIPE, stderr=subprocess.PIPE, text=True)
 
 def harness_bin(release=False):
     return os.path.join(HARNESS, 'target', 'release' if release else 'debug', 'stevia-harness')
+
+def _run_impl_shard(cmd, cases, path, mode, crashed, skipped):
+    """run the harness on a shard; if it dies (endless loop caught by the watchdog, memory
+    blow-up, abort) note the case it died in and go on with the cases after it"""
+    res = {}
+    todo = list(cases)
+    rounds = 0
+    while todo and rounds < 4:
+        rounds += 1
+        with open(path, 'w') as f:
+            for c in todo:
+                f.write(c.text(mode))
+        p = _run_proc(cmd, path, limit=True)
+        o, e = p.communicate()
+        r, hang = parse_output(o)
+        res.update(r)
+        if p.returncode == 0:
+            break
+        last = None
+        for line in o.split('\n'):
+            if line.startswith('begin '):
+                last = line[6:].strip()
+        if last is None:
+            raise RuntimeError('harness failed: rc=%s %s' % (p.returncode, e[-2000:]))
+        crashed.append(last)
+        res.setdefault(last, [])
+        ids = [c.id for c in todo]
+        todo = todo[ids.index(last) + 1:] if last in ids else []
+    else:
+        # too many crashes in this shard: the remaining cases were not run
+        skipped.extend(c.id for c in todo)
+    return res
 
 def run_cases(cases, workdir, tag, full=False, fill='a5', mode=None, impl=True, model=True, release=False):
     """Run cases on the implementation and/or the model, sharded over the
@@ -81,37 +120,34 @@ def run_cases(cases, workdir, tag, full=False, fill='a5', mode=None, impl=True, 
     shards = [[] for _ in range(nshard)]
     for i, c in enumerate(cases):
         shards[i % nshard].append(c)
-    procs = []
-    for si, sh_cases in enumerate(shards):
-        path = os.path.join(workdir, '%s.%d.case' % (tag, si))
-        with open(path, 'w') as f:
-            for c in sh_cases:
-                f.write(c.text(mode))
-        pi = pm = None
-        if impl:
-            cmd = [harness_bin(release)] + (['--full'] if full else []) + ['--fill', fill]
-            pi = _run_proc(cmd, path)
-        if model:
-            cmd = [DRIVER] + (['--full'] if full else [])
-            pm = _run_proc(cmd, path)
-        procs.append((pi, pm))
-    impl_steps, model_steps, hang = {}, {}, None
-    for pi, pm in procs:
-        if pi:
-            o, e = pi.communicate()
-            r, h = parse_output(o)
-            impl_steps.update(r)
-            if h:
-                hang = h
-            if pi.returncode not in (0, 3):
-                raise RuntimeError('harness failed: rc=%s %s' % (pi.returncode, e[-2000:]))
-        if pm:
-            o, e = pm.communicate()
-            if pm.returncode != 0:
-                raise RuntimeError('driver failed: %s' % e[-2000:])
-            r, _ = parse_output(o)
-            model_steps.update(r)
-    return impl_steps, model_steps, hang
+    import concurrent.futures
+    impl_steps, model_steps, crashed, skipped = {}, {}, [], []
+    futs = []
+    pms = []
+    with concurrent.futures.ThreadPoolExecutor(max_workers=nshard) as ex:
+        for si, sh_cases in enumerate(shards):
+            path = os.path.join(workdir, '%s.%d.case' % (tag, si))
+            if model:
+                mpath = path + '.m'
+                with open(mpath, 'w') as f:
+                    for c in sh_cases:
+                        f.write(c.text(mode))
+                pms.append(_run_proc([DRIVER] + (['--full'] if full else []), mpath))
+            if impl:
+                cmd = [harness_bin(release)] + (['--full'] if full else []) + ['--fill', fill]
+                futs.append(ex.submit(_run_impl_shard, cmd, sh_cases, path, mode, crashed, skipped))
+        for f in futs:
+            impl_steps.update(f.result())
+    for pm in pms:
+        o, e = pm.communicate()
+        if pm.returncode != 0:
+            raise RuntimeError('driver failed: %s' % e[-2000:])
+        r, _ = parse_output(o)
+        model_steps.update(r)
+    for cid in skipped:
+        model_steps.pop(cid, None)
+        impl_steps.pop(cid, None)
+    return impl_steps, model_steps, (crashed[0] if crashed else None)
 
 def decode_docs(lines, workdir, tag):
     """lines: list of 'kind params b=hex' -> list of doc dicts (driver --decode)."""
